@@ -1,7 +1,7 @@
 (* C16 - The BUILD language agrees with Python on its documented subset.
    This file holds only the statement, the property theorems and their non-vacuity examples. *)
-From PlzV Require Import Base.Harness Model.C16_Syntax Model.C16_Ops Model.C16_Prim Model.C16_Eval Model.C16.
-From PlzV Require Import Proof.C16_Ops Proof.C16_Int Proof.C16 Proof.C16_Prog.
+From PlzV Require Import Base.Harness Model.C16_Syntax Model.C16_Ops Model.C16_Prim Model.C16_Eval Model.C16 Model.C16_Pure.
+From PlzV Require Import Proof.C16_Ops Proof.C16_Int Proof.C16 Proof.C16_Prog Proof.C16_Pure.
 
 (* Every program of the modelled subset (integers, strings, lists, dicts, comprehensions, functions, if/for and
    the builtins len sorted reversed range enumerate zip any all min max str join split ...) that asp evaluates
@@ -17,18 +17,26 @@ Theorem C16_refuted : ~ C16_statement.
 Proof. exact (fun H => rest_refutes (proj1 H FUEL w_rest)). Qed.
 Print Assumptions C16_refuted.
 
-(* The strongest statements the code supports, layer by layer, each for ALL chains / operands / states:
+(* The strongest statements the code supports, each for ALL programs / chains / operands / states:
+   0. (main) the PURE fragment, whole programs: for every program p of the syntactic fragment in_pure_subset (literals,
+      variables, = and +=, ops_safe operator chains, comparisons, and/or/not also over lists, inline if, list literals and
+      list +, if/elif/else, for with break/continue, assert) and every fuel: if the checked reference run pure_run
+      succeeds - i.e. every integer operation performed along the run is one on which Go's 64-bit operator and CPython's
+      agree, and no type-dependent trigger of a known difference is hit (Model/C16_Pure.v lists them) - then the asp run
+      and the CPython run of p are EQUAL, and both print exactly the globals of the reference run;
    1. a chain the classifier does not flag (equivalently: ops_safe) is evaluated by interpretOps exactly as
       CPython's grammar groups it - for every operand evaluator, first value and state; the precedence and lazy
       tables are the ones regenerated from grammar.go;
    2. asp's 64-bit integer operators give CPython's result under int_safe (no overflow; % with operands of the
       same sign or divisor zero; // with |operands| < 2^53 and a non-zero divisor; never /);
    3. + on a list whose capacity equals its length allocates a fresh array and writes no existing one;
-   4. whole programs: for every program `x = <chain over integer literals>`, every fuel - if the chain is safe and
-      CPython's evaluation of it (tree_val) stays within the side conditions of 2, the asp run and the CPython run
-      of the program are equal. *)
+   4. whole programs `x = <chain over integer literals>`: if the chain is safe and CPython's evaluation of it (tree_val)
+      stays within the side conditions of 2, the asp run and the CPython run of the program are equal. *)
 Definition C16_partial_statement : Prop :=
-  (forall (evalx : vexpr -> state -> res (value * state)) fuel obj (ops : list opitem) st,
+  (forall fuel (p : prog) ps,
+     in_pure_subset p = true -> pure_run fuel p = Ok ps ->
+     run Asp [] fuel [p] = run Py [] fuel [p] /\ run Asp [] fuel [p] = [OGlobals (pure_obs ps) (pure_obs ps)])
+  /\ (forall (evalx : vexpr -> state -> res (value * state)) fuel obj (ops : list opitem) st,
      chain_class (items_of ops) = None ->
      chain Asp evalx fuel obj ops st =
      py_ops evalx (apply_bin Asp fuel) (fun u v st0 => apply_un Asp u st0 v) (fun v st0 => truthy Asp st0 v) obj (items_of ops) st)
@@ -49,10 +57,10 @@ Definition C16_partial_statement : Prop :=
 
 Theorem C16_partial : C16_partial_statement.
 Proof.
-  exact (conj chain_unflagged_agrees
+  exact (conj pure_subset_program_agrees (conj chain_unflagged_agrees
         (conj (@chain_class_none_safe vexpr)
         (conj (@groupings_agree vexpr value)
-        (conj int_ops_agree (conj list_add_full_is_pure int_chain_program_agrees))))).
+        (conj int_ops_agree (conj list_add_full_is_pure int_chain_program_agrees)))))).
 Qed.
 Print Assumptions C16_partial.
 
@@ -72,4 +80,37 @@ Example C16_partial_nonvacuous :
   /\ py_run [SAssign (s "a") (Ex (XInt 0) ops None)] = OGlobals [(s "a", OBool true)] [(s "a", OBool true)]
   /\ int_safe Mod 7 3 = true /\ int_safe Mul 3037000500 3037000500 = false
   /\ tree_val (py_tree (TVal (VInt 0)) (items_of ops)) = Some (PB true).
+Proof. vm_compute. repeat split. Qed.
+
+(* ... and of its main conjunct: the program
+       l = [3, 1 + 1, 0]; t = 0
+       for x in l:
+           if x > 1: t += x * 2
+           elif not x: break
+           else: t = t - 1
+       w = 0 or [1] and (7 if l else 8); m = l + [t]
+   is in the fragment, its checked reference run succeeds (t = 10, w = 7, m = [3, 2, 0, 10]) - so both dialects print
+   exactly that; and the integer side condition is needed: a = -7 % 3 is in the fragment, its reference run refuses, and
+   the two dialects differ on it (w_mod of C16_refuted_witnesses). *)
+Definition pure_example : prog :=
+  let lit z := Ex (XInt z) [] None in
+  let id (n : str) := Ex (XIdent n) [] None in
+  [ SAssign (s "l") (Ex (XList [lit 3%Z; Ex (XInt 1%Z) [OBin Add (XInt 1%Z)] None; lit 0%Z]) [] None);
+    SAssign (s "t") (lit 0%Z);
+    SFor [s "x"] (id (s "l"))
+      [SIf (Ex (XIdent (s "x")) [OBin C16_Syntax.Gt (XInt 1%Z)] None)
+           [SAug (s "t") (Ex (XIdent (s "x")) [OBin Mul (XInt 2%Z)] None)]
+           [(Ex (XIdent (s "x")) [OUn Not] None, [SBreak])]
+           [SAssign (s "t") (Ex (XIdent (s "t")) [OBin Sub (XInt 1%Z)] None)]];
+    SAssign (s "w") (Ex (XInt 0%Z) [OBin Or (XList [lit 1%Z]); OBin And (XParen (Ex (XInt 7%Z) [] (Some (id (s "l"), lit 8%Z))))] None);
+    SAssign (s "m") (Ex (XIdent (s "l")) [OBin Add (XList [id (s "t")])] None) ].
+
+Example C16_partial_pure_nonvacuous :
+  in_pure_subset pure_example = true
+  /\ (match pure_run FUEL pure_example with
+      | Ok ps => pure_obs ps = [(s "l", OList false 0 [OInt 3%Z; OInt 2%Z; OInt 0%Z]); (s "m", OList false 0 [OInt 3%Z; OInt 2%Z; OInt 0%Z; OInt 10%Z]);
+                                (s "t", OInt 10%Z); (s "w", OInt 7%Z); (s "x", OInt 0%Z)]
+      | _ => False
+      end)
+  /\ in_pure_subset w_mod = true /\ is_ok (pure_run FUEL w_mod) = false /\ differs FUEL [] w_mod w_mod = true.
 Proof. vm_compute. repeat split. Qed.
